@@ -33,6 +33,7 @@ package fsutil
 //@   ensures lt: (result < 0) == specPathLess(p1, p2)
 //@   ensures eq: (result == 0) == (p1 == p2)
 //@   ensures gt: (result > 0) == specPathLess(p2, p1)
+//@   ensures emptyfirst: len(p1) == 0 ==> result <= 0
 //@   loop 0 invariant bounds: 0 <= i && i <= min
 //@   loop 0 invariant min: min <= len(p1) && min <= len(p2) && (min == len(p1) || min == len(p2))
 //@   loop 0 invariant prefix: forall j int :: 0 <= j && j < i ==> p1[j] == p2[j]
@@ -128,3 +129,50 @@ package fsutil
 //@   ensures type: arg(Mknod, 1) & syscall.S_IFMT == ite(stat.Mode & uint32(os.ModeCharDevice) != 0, syscall.S_IFCHR, ite(stat.Mode & uint32(os.ModeNamedPipe) != 0, syscall.S_IFIFO, syscall.S_IFBLK))
 //@   ensures dev: arg(Mknod, 2) == int(unix.Mkdev(uint32(stat.Devmajor), uint32(stat.Devminor)))
 //@   ensures err: (result == nil) ==> true
+
+// ---------------------------------------------------------------------------
+// hardlinks.go
+// ---------------------------------------------------------------------------
+
+// A hard link (non-directory, non-symlink entry with a link name) is accepted
+// iff its link name was received earlier as a non-link; such non-links are
+// remembered; nothing else changes the set.
+//@ pred specIsLinkCandidate(kind ChangeKind, fi os.FileInfo) bool = kind != ChangeKindDelete && isptr(fi.Sys(), types.Stat) && !fi.IsDir() && fi.Mode() & os.ModeSymlink == 0
+
+//@ func Hardlinks.HandleChange
+//@   property C03 C11
+//@   requires v != nil
+//@   modifies v.seenFiles, v.seenFiles[*]
+//@   ensures passerr: err != nil ==> result == err
+//@   ensures link: err == nil && specIsLinkCandidate(kind, fi) && len(asptr(fi.Sys(), types.Stat).Linkname) > 0 ==> (result == nil) == old(haskey(v.seenFiles, asptr(fi.Sys(), types.Stat).Linkname))
+//@   ensures link_frame: err == nil && specIsLinkCandidate(kind, fi) && len(asptr(fi.Sys(), types.Stat).Linkname) > 0 ==> forall k string :: haskey(v.seenFiles, k) == old(haskey(v.seenFiles, k))
+//@   ensures reg: err == nil && specIsLinkCandidate(kind, fi) && len(asptr(fi.Sys(), types.Stat).Linkname) == 0 ==> result == nil && (forall k string :: haskey(v.seenFiles, k) == (old(haskey(v.seenFiles, k)) || k == p))
+//@   ensures other: err == nil && !specIsLinkCandidate(kind, fi) ==> forall k string :: haskey(v.seenFiles, k) == old(haskey(v.seenFiles, k))
+//@   ensures nostat: err == nil && kind != ChangeKindDelete && !isptr(fi.Sys(), types.Stat) ==> result != nil
+
+// ---------------------------------------------------------------------------
+// validator.go: Validator (soundness direction: accept ==> ...)
+// ---------------------------------------------------------------------------
+
+//@ pred specVDir(p string) string = ite(filepath.Dir(p) == ".", "", filepath.Dir(p))
+//@ pred specVPushed(kind ChangeKind, fi os.FileInfo) bool = kind != ChangeKindDelete && fi.IsDir()
+
+// representation invariant: the stack of open directories is never empty once
+// initialised and its bottom is the root (""). On acceptance: the path is
+// lexically contained, its directory is an open directory (entry i of the old
+// stack), its base name is bytewise above the last child accepted in that
+// directory, the stack is cut back to that entry, and a directory that is not
+// being deleted is pushed.
+//@ func Validator.HandleChange
+//@   property C12 C03
+//@   requires v != nil
+//@   requires wf: v.parentDirs == nil || (len(v.parentDirs) >= 1 && v.parentDirs[0].dir == "")
+//@   modifies v.parentDirs, v.parentDirs[*]
+//@   ensures passerr: err != nil ==> retErr == err
+//@   ensures lexical: err == nil && retErr == nil ==> p == filepath.Clean(p) && !filepath.IsAbs(p) && p != "." && p != ".." && !strings.HasPrefix(p, "../") && filepath.Dir(p) != ".."
+//@   ensures wf: err == nil ==> v.parentDirs != nil && len(v.parentDirs) >= 1 && v.parentDirs[0].dir == ""
+//@   ensures parent: forall i int :: err == nil && retErr == nil && old(v.parentDirs) != nil && i == len(v.parentDirs) - 1 - ite(specVPushed(kind, fi), 1, 0) ==> 0 <= i && i < old(len(v.parentDirs)) && old(v.parentDirs[i].dir) == specVDir(p) && old(v.parentDirs[i].last) < filepath.Base(p)
+//@   ensures first: err == nil && retErr == nil && old(v.parentDirs) == nil ==> specVDir(p) == "" && "" < filepath.Base(p) && len(v.parentDirs) == 1 + ite(specVPushed(kind, fi), 1, 0)
+//@   ensures last: err == nil && retErr == nil ==> v.parentDirs[len(v.parentDirs) - 1 - ite(specVPushed(kind, fi), 1, 0)].last == filepath.Base(p) && v.parentDirs[len(v.parentDirs) - 1 - ite(specVPushed(kind, fi), 1, 0)].dir == specVDir(p)
+//@   ensures push: err == nil && retErr == nil && specVPushed(kind, fi) ==> v.parentDirs[len(v.parentDirs) - 1].dir == filepath.Join(specVDir(p), filepath.Base(p)) && v.parentDirs[len(v.parentDirs) - 1].last == ""
+//@   ensures keep: err == nil && retErr == nil && old(v.parentDirs) != nil ==> forall k int :: 0 <= k && k < len(v.parentDirs) - 1 - ite(specVPushed(kind, fi), 1, 0) ==> v.parentDirs[k].dir == old(v.parentDirs[k].dir) && v.parentDirs[k].last == old(v.parentDirs[k].last)
